@@ -363,7 +363,9 @@ pub fn check_cluster(b: &Built, rec: &Recorder, c: &mut Counters) -> u64 {
 }
 
 pub fn c11_families(tier: &str) -> Vec<Family> {
-    let mut v = vec![];
+    let mut v = primed_small("w12", 3);
+    v.extend(route_small("w12", true));
+    v.extend(hist_small("w12", false));
     if tier == "quick" {
         for n in 0..=3 {
             for k in kinds_all() {
